@@ -595,6 +595,16 @@ func (w *srvWorld) connEnded() int {
 	if w.waitSeq >= 0 && w.waitSeq < e {
 		e = w.waitSeq
 	}
+	// any definite stop cause (peer close, channel failure) has taken effect by the
+	// first quiescent point after it
+	if fc := w.firstDefiniteCause(); fc < 1<<30 {
+		for _, q := range w.qpoints {
+			if q > fc && q < e {
+				e = q
+				break
+			}
+		}
+	}
 	return e
 }
 
@@ -749,6 +759,10 @@ func (w *srvWorld) checkC09(final bool) {
 			for _, rep := range replies {
 				if rep.Seq <= a.Return && (strings.Contains(a.Result, `"`+rep.Payload+`"`) || a.Result == "E:"+rep.Payload) {
 					pay = rep.Payload
+					if rep.IsErr && rep.Code != 0 && (a.ErrCode != rep.Code || compactJSON(a.ErrData) != fmt.Sprintf(`{"d":%q}`, rep.Payload)) {
+						r.Fail("callback-foreign-reply", "Callback %s: the client answered with error code %d and data {\"d\":%q}; Callback returned code %d data %s (client failures must arrive as the *Error the client sent)", a.Tag, rep.Code, rep.Payload, a.ErrCode, a.ErrData)
+						return
+					}
 				}
 			}
 			if pay == "" {
